@@ -41,7 +41,7 @@ func runConn(transport string, l, el int) ConnRec {
 	r := ConnRec{Op: "conn", Transport: transport, L: l, EL: el}
 	var pending func() []out // requests written by the connection and not yet answered
 	var answer func(o out)
-	var get func(ctx context.Context, p string) error
+	var get func(ctx context.Context, p string, opts ...message.Option) error
 	var observe func(ctx context.Context, p string) (interface {
 		Cancel(ctx context.Context, opts ...message.Option) error
 	}, error)
@@ -54,8 +54,8 @@ func runConn(transport string, l, el int) ConnRec {
 			cfg.LimitClientEndpointParallelRequests = int64(el)
 		})
 		closeFn = u.Close
-		get = func(ctx context.Context, p string) error {
-			resp, err := u.CC.Get(ctx, p)
+		get = func(ctx context.Context, p string, opts ...message.Option) error {
+			resp, err := u.CC.Get(ctx, p, opts...)
 			if err == nil {
 				u.CC.ReleaseMessage(resp)
 			}
@@ -99,8 +99,8 @@ func runConn(transport string, l, el int) ConnRec {
 		})
 		closeFn = t.Close
 		t.Feed(conns.Frame(int(codes.CSM), []byte{1}, nil, nil))
-		get = func(ctx context.Context, p string) error {
-			resp, err := t.CC.Get(ctx, p)
+		get = func(ctx context.Context, p string, opts ...message.Option) error {
+			resp, err := t.CC.Get(ctx, p, opts...)
 			if err == nil {
 				t.CC.ReleaseMessage(resp)
 			}
@@ -139,7 +139,7 @@ func runConn(transport string, l, el int) ConnRec {
 		}
 	}
 	defer closeFn()
-	paths := []string{"/p1", "/p2", "/p3"}
+	paths := []string{"/p1", "/p2", "/obs"} // (the observed path too: its deregistration competes with plain requests for the same path)
 	const perPath = 3
 	ctx, cancel := context.WithTimeout(context.Background(), 5*time.Second)
 	defer cancel()
@@ -166,7 +166,16 @@ func runConn(transport string, l, el int) ConnRec {
 		for k := 0; k < perPath; k++ {
 			wg.Add(1)
 			r.Calls++
-			go func(p string) { defer wg.Done(); _ = get(ctx, p) }(p)
+			// requests for one path count against that path whatever other options they carry - also options that sort
+			// before Uri-Path (ETag 4, Uri-Host 3)
+			var opts []message.Option
+			switch k {
+			case 1:
+				opts = []message.Option{{ID: message.ETag, Value: []byte{7}}}
+			case 2:
+				opts = []message.Option{{ID: message.URIHost, Value: []byte("h")}}
+			}
+			go func(p string, opts []message.Option) { defer wg.Done(); _ = get(ctx, p, opts...) }(p, opts)
 		}
 	}
 	done := make(chan struct{})
